@@ -94,6 +94,12 @@ Engine/SearchDriver.vos Engine/SearchDriver.vok Engine/SearchDriver.required_vos
 Engine/SearchDriverProofs.vo Engine/SearchDriverProofs.glob Engine/SearchDriverProofs.v.beautified Engine/SearchDriverProofs.required_vo: Engine/SearchDriverProofs.v Gen/Consts.vo Engine/SearchDriver.vo
 Engine/SearchDriverProofs.vio: Engine/SearchDriverProofs.v Gen/Consts.vio Engine/SearchDriver.vio
 Engine/SearchDriverProofs.vos Engine/SearchDriverProofs.vok Engine/SearchDriverProofs.required_vos: Engine/SearchDriverProofs.v Gen/Consts.vos Engine/SearchDriver.vos
+Engine/SearchNode.vo Engine/SearchNode.glob Engine/SearchNode.v.beautified Engine/SearchNode.required_vo: Engine/SearchNode.v Chess/Rules.vo
+Engine/SearchNode.vio: Engine/SearchNode.v Chess/Rules.vio
+Engine/SearchNode.vos Engine/SearchNode.vok Engine/SearchNode.required_vos: Engine/SearchNode.v Chess/Rules.vos
+Engine/SearchNodeProofs.vo Engine/SearchNodeProofs.glob Engine/SearchNodeProofs.v.beautified Engine/SearchNodeProofs.required_vo: Engine/SearchNodeProofs.v Chess/Rules.vo Engine/SearchNode.vo
+Engine/SearchNodeProofs.vio: Engine/SearchNodeProofs.v Chess/Rules.vio Engine/SearchNode.vio
+Engine/SearchNodeProofs.vos Engine/SearchNodeProofs.vok Engine/SearchNodeProofs.required_vos: Engine/SearchNodeProofs.v Chess/Rules.vos Engine/SearchNode.vos
 Engine/StopProofs.vo Engine/StopProofs.glob Engine/StopProofs.v.beautified Engine/StopProofs.required_vo: Engine/StopProofs.v Engine/StopProtocol.vo
 Engine/StopProofs.vio: Engine/StopProofs.v Engine/StopProtocol.vio
 Engine/StopProofs.vos Engine/StopProofs.vok Engine/StopProofs.required_vos: Engine/StopProofs.v Engine/StopProtocol.vos
@@ -205,9 +211,9 @@ Props/Properties_C03.vos Props/Properties_C03.vok Props/Properties_C03.required_
 Props/Properties_C04.vo Props/Properties_C04.glob Props/Properties_C04.v.beautified Props/Properties_C04.required_vo: Props/Properties_C04.v Engine/PositionRep.vo Engine/RepAbs.vo Engine/RepProofs.vo
 Props/Properties_C04.vio: Props/Properties_C04.v Engine/PositionRep.vio Engine/RepAbs.vio Engine/RepProofs.vio
 Props/Properties_C04.vos Props/Properties_C04.vok Props/Properties_C04.required_vos: Props/Properties_C04.v Engine/PositionRep.vos Engine/RepAbs.vos Engine/RepProofs.vos
-Props/Properties_C05.vo Props/Properties_C05.glob Props/Properties_C05.v.beautified Props/Properties_C05.required_vo: Props/Properties_C05.v Gen/Consts.vo Engine/SearchDriver.vo Engine/SearchDriverProofs.vo
-Props/Properties_C05.vio: Props/Properties_C05.v Gen/Consts.vio Engine/SearchDriver.vio Engine/SearchDriverProofs.vio
-Props/Properties_C05.vos Props/Properties_C05.vok Props/Properties_C05.required_vos: Props/Properties_C05.v Gen/Consts.vos Engine/SearchDriver.vos Engine/SearchDriverProofs.vos
+Props/Properties_C05.vo Props/Properties_C05.glob Props/Properties_C05.v.beautified Props/Properties_C05.required_vo: Props/Properties_C05.v Gen/Consts.vo Engine/SearchDriver.vo Engine/SearchDriverProofs.vo Chess/Rules.vo Engine/SearchNode.vo Engine/SearchNodeProofs.vo
+Props/Properties_C05.vio: Props/Properties_C05.v Gen/Consts.vio Engine/SearchDriver.vio Engine/SearchDriverProofs.vio Chess/Rules.vio Engine/SearchNode.vio Engine/SearchNodeProofs.vio
+Props/Properties_C05.vos Props/Properties_C05.vok Props/Properties_C05.required_vos: Props/Properties_C05.v Gen/Consts.vos Engine/SearchDriver.vos Engine/SearchDriverProofs.vos Chess/Rules.vos Engine/SearchNode.vos Engine/SearchNodeProofs.vos
 Props/Properties_C06.vo Props/Properties_C06.glob Props/Properties_C06.v.beautified Props/Properties_C06.required_vo: Props/Properties_C06.v Gen/Layout.vo Gen/LayoutAst.vo Engine/StopProtocol.vo Engine/StopProofs.vo
 Props/Properties_C06.vio: Props/Properties_C06.v Gen/Layout.vio Gen/LayoutAst.vio Engine/StopProtocol.vio Engine/StopProofs.vio
 Props/Properties_C06.vos Props/Properties_C06.vok Props/Properties_C06.required_vos: Props/Properties_C06.v Gen/Layout.vos Gen/LayoutAst.vos Engine/StopProtocol.vos Engine/StopProofs.vos
